@@ -122,7 +122,13 @@ class LetFiller(Visitor):
     def fill_in_register(self, reg):
         if reg.fundamental:
             if isinstance(reg.size, Constant):
-                return Register(reg.name, self.resolve_constant(reg.size))
+                size = self.resolve_constant(reg.size)
+                if size <= 0:
+                    # Same rule as the parser applies to a literal size
+                    raise JaqalError(
+                        f"Defining register {reg.name}: Invalid register size {size}"
+                    )
+                return Register(reg.name, size)
             else:
                 return reg
         else:
